@@ -63,6 +63,21 @@ def make_tap(recorder, side, on_send=None, on_read=None):
             self._tap_lock = threading.RLock()
             self.epoch_out = 0
             self.epoch_in = 0
+            self._cur_out = None
+            self._rd_bytes = 0
+
+        def write_all(self, out):
+            # called by send_message with the final wire image of one packet
+            # (and once, outside it, with the banner line)
+            cur = self._cur_out
+            if cur is not None:
+                cur["wire_len"] = cur.get("wire_len", 0) + len(out)
+            return super().write_all(out)
+
+        def read_all(self, n, check_rekey=False):
+            out = super().read_all(n, check_rekey)
+            self._rd_bytes += len(out)
+            return out
 
         def send_message(self, data):
             raw = data.asbytes()
@@ -82,10 +97,15 @@ def make_tap(recorder, side, on_send=None, on_read=None):
                     thread=threading.get_ident(),
                     done=False,
                 )
-                super().send_message(data)
+                self._cur_out = rec
+                try:
+                    super().send_message(data)
+                finally:
+                    self._cur_out = None
                 rec["done"] = True
 
         def read_message(self):
+            self._rd_bytes = 0
             try:
                 ptype, m = super().read_message()
             except Exception as e:
@@ -101,6 +121,7 @@ def make_tap(recorder, side, on_send=None, on_read=None):
                 seq=m.seqno,
                 enc=pz(self, "block_engine_in") is not None,
                 epoch=self.epoch_in,
+                wire_len=self._rd_bytes,
             )
             if on_read is not None:
                 on_read(self, ptype, m)
